@@ -42,21 +42,23 @@ type Obligation struct {
 }
 
 type Ctx struct {
-	Prop    string
-	Tier    string
-	Repo    string
-	VerifD  string
-	Tags    string
-	Env     []string
-	Fset    *token.FileSet
-	Roots   []*packages.Package
-	All     map[string]*packages.Package
-	Obls    []Obligation
-	Infos   []string
-	Rules   map[string]string // rule id -> statement of the rule
-	ruleSeq []string
-	Assume  []string
-	Explain string
+	Prop       string
+	Tier       string
+	Repo       string
+	VerifD     string
+	Tags       string
+	Env        []string
+	Fset       *token.FileSet
+	Roots      []*packages.Package
+	All        map[string]*packages.Package
+	Obls       []Obligation
+	Infos      []string
+	Rules      map[string]string // rule id -> statement of the rule
+	ruleSeq    []string
+	Assume     []string
+	Explain    string
+	Overlay    map[string][]byte
+	NoEvidence bool
 
 	prog    *ssa.Program
 	ssaPkgs map[string]*ssa.Package
@@ -131,10 +133,11 @@ func (c *Ctx) Load(patterns ...string) {
 	cfg := &packages.Config{
 		Mode: packages.NeedName | packages.NeedFiles | packages.NeedCompiledGoFiles | packages.NeedImports |
 			packages.NeedDeps | packages.NeedTypes | packages.NeedSyntax | packages.NeedTypesInfo | packages.NeedTypesSizes | packages.NeedModule,
-		Dir:   c.Repo,
-		Fset:  c.Fset,
-		Tests: false,
-		Env:   append(os.Environ(), c.Env...),
+		Dir:     c.Repo,
+		Fset:    c.Fset,
+		Tests:   false,
+		Overlay: c.Overlay,
+		Env:     append(os.Environ(), c.Env...),
 	}
 	if c.Tags != "" {
 		cfg.BuildFlags = []string{"-tags=" + c.Tags}
@@ -444,8 +447,15 @@ func (c *Ctx) Finish() int {
 	}
 	// report file (the replay artefact)
 	repDir := filepath.Join(c.VerifD, "reports")
+	if c.NoEvidence {
+		repDir = os.TempDir()
+	}
 	os.MkdirAll(repDir, 0o755)
 	repPath := filepath.Join(repDir, fmt.Sprintf("%s-%s.txt", c.Prop, c.Tier))
+	if c.NoEvidence {
+		repPath = filepath.Join(repDir, fmt.Sprintf("murexlint-selftest-%d.txt", os.Getpid()))
+		defer os.Remove(repPath)
+	}
 	var sb strings.Builder
 	fmt.Fprintf(&sb, "murexlint report property=%s tier=%s repo=%s\n", c.Prop, c.Tier, c.Repo)
 	for _, cf := range c.configs {
@@ -537,8 +547,10 @@ func (c *Ctx) Finish() int {
 	evDir := filepath.Join(c.VerifD, "evidence")
 	os.MkdirAll(evDir, 0o755)
 	b, _ := json.MarshalIndent(ev, "", " ")
-	if err := os.WriteFile(filepath.Join(evDir, c.Prop+".json"), append(b, '\n'), 0o644); err != nil {
-		fatal("write evidence: %v", err)
+	if !c.NoEvidence {
+		if err := os.WriteFile(filepath.Join(evDir, c.Prop+".json"), append(b, '\n'), 0o644); err != nil {
+			fatal("write evidence: %v", err)
+		}
 	}
 	fmt.Printf("%s %s: obligations=%d ok=%d known=%d violations=%d undecided=%d anchor-lost=%d wall=%.1fs report=%s\n",
 		c.Prop, c.Tier, len(c.Obls), nOK, nKnown, nViol, nUnd, nLost, time.Since(c.start).Seconds(), repPath)
